@@ -47,6 +47,8 @@ class RefModel:
         self.time = 0
         self.init = False
         self.was_final = False
+        self.t_entry = {}
+        self.t_idle = {}
 
     # -- queues -------------------------------------------------------------------------------
     def queue(self, name, uid, due, internal=False):
@@ -67,6 +69,23 @@ class RefModel:
     # -- structure ----------------------------------------------------------------------------
     def final(self):
         return self.init and not self.config
+
+    def enter(self, n):
+        self.config.add(n)
+        self.t_entry[n] = self.time
+        self.t_idle[n] = self.time
+
+    def time_guard(self, t):
+        """after(d)/idle(d) of plain time guards: at least d elapsed since the source was entered / entered or last fired."""
+        tg = t.get('tguard')
+        if not tg or not tg.get('plain'):
+            return True
+        s = t['source']
+        if tg['after'] is not None and not (self.time - self.t_entry[s] >= tg['after']):
+            return False
+        if tg['idle'] is not None and not (self.time - self.t_idle[s] >= tg['idle']):
+            return False
+        return True
 
     def stabilise(self, exp):
         st = self.st
@@ -90,7 +109,7 @@ class RefModel:
                 c.discard(h)
                 exp.exited[h] += 1
                 for m in mem:
-                    c.add(m)
+                    self.enter(m)
                     exp.entered[m] += 1
                 exp.restores.append(dict(h=h, kind=st[h]['kind'], states=list(mem), default=default,
                                          differs_from_default=(list(mem) != [st[h]['memory']])))
@@ -102,13 +121,13 @@ class RefModel:
                     miss = sorted(x for x in st[n]['children'] if x not in c)
                     if miss:
                         for x in miss:
-                            c.add(x)
+                            self.enter(x)
                             exp.entered[x] += 1
                         changed = True
                         break
                 elif k == 'compound':
                     if not any(x in c for x in st[n]['children']) and st[n]['initial']:
-                        c.add(st[n]['initial'])
+                        self.enter(st[n]['initial'])
                         exp.entered[st[n]['initial']] += 1
                         changed = True
                         break
@@ -133,7 +152,7 @@ class RefModel:
         exp.pending_uid = pend[2] if pend else None
         en = [t for t in self.ch['transitions'] if t['source'] in self.config
               and (t['event'] is None or (pend is not None and t['event'] == pname))
-              and (not t['guard'] or val(t['id']))]
+              and self.time_guard(t) and (not t['guard'] or val(t['id']))]
         exp.enabled = [t['id'] for t in en]
         evl = [t for t in en if t['event'] is None]
         comp = evl if evl else en
@@ -201,7 +220,8 @@ class RefModel:
         if not self.init:
             self.init = True
             exp = Expect('step')
-            self.config = {self.ch['root']}
+            self.config = set()
+            self.enter(self.ch['root'])
             exp.entered[self.ch['root']] += 1
             self.stabilise(exp)
             exp.config = set(self.config)
@@ -233,6 +253,7 @@ class RefModel:
         exp.fired = [t['id'] for t in fired]
         for t in fired:
             if t['target'] is None:
+                self.t_idle[t['source']] = self.time
                 continue
             s, g = t['source'], t['target']
             sa = tr.anc(s)
@@ -254,8 +275,9 @@ class RefModel:
                 if x == lca:
                     break
                 path.insert(0, x)
+            self.t_idle[s] = self.time
             for n in path:
-                self.config.add(n)
+                self.enter(n)
                 exp.entered[n] += 1
             self.stabilise(exp)
         exp.config = set(self.config)
